@@ -130,7 +130,17 @@ fn main() {
     let args = parse();
     match args.cmd.as_str() {
         "check" => std::process::exit(check(&args)),
-        "replay" => std::process::exit(replay(&args.target)),
+        "replay" => {
+            // same thread name as the explorer's workers (see verif_rt::explore)
+            let t = args.target.clone();
+            let rc = std::thread::Builder::new()
+                .name(verif_rt::explore::ADVERSARIAL_THREAD_NAME.to_string())
+                .spawn(move || replay(&t))
+                .expect("spawn")
+                .join()
+                .unwrap_or(2);
+            std::process::exit(rc)
+        }
         "selftest" => std::process::exit(selftest::run()),
         "conform-model" => std::process::exit(conform_model::run(&args.target, args.bound.unwrap_or(1))),
         "list" => {
